@@ -101,3 +101,42 @@ Fixpoint json_string_aux (skip : nat) (s : bstr) : bstr :=
 
 (* json.Marshal(data.String(s)) *)
 Definition json_string (s : bstr) : bstr := 34 :: json_string_aux 0 s ++ [34].
+
+(* ---- the escaper soy itself calls for the inside of a JavaScript string literal ----
+   [pair = false]: text/template's JSEscape as it is ([js_escape]: a non-printable rune above
+   U+FFFF is written with five or six hex digits, which JavaScript reads as a four-digit
+   escape followed by digits).  [pair = true]: internal/jsescape (repair
+   notes/pending/C16-jsstr-astral-surrogate-pair.diff): such a rune is written as the two
+   four-digit escapes of its UTF-16 surrogate pair (utf16.EncodeRune), everything else goes
+   through the library unchanged.  Which of the two the tree under test calls is read from its
+   source (Generated/Tables.v jsstr_pair_html, jsstr_pair_js). *)
+Definition hi_surrogate (r : N) : N := 55296 + (r - 65536) / 1024.
+Definition lo_surrogate (r : N) : N := 56320 + (r - 65536) mod 1024.
+
+Section JsEscapeSoy.
+  Variable pair : bool.
+  Variable is_print : N -> bool.
+
+  Definition js_rune_piece_soy (s : bstr) : bstr :=
+    let '(ru, w) := decode_rune s in
+    if is_print ru then take w s
+    else if pair && (65536 <=? ru) then (92 :: 117 :: hex4 (hi_surrogate ru)) ++ (92 :: 117 :: hex4 (lo_surrogate ru))
+    else 92 :: 117 :: fmt_04X ru.
+
+  Fixpoint js_escape_soy_aux (skip : nat) (s : bstr) : bstr :=
+    match s with
+    | [] => []
+    | c :: r =>
+        match skip with
+        | S k => js_escape_soy_aux k r
+        | O =>
+            if c <? 128 then
+              match js_ascii_escape c with
+              | Some e => e ++ js_escape_soy_aux 0 r
+              | None => c :: js_escape_soy_aux 0 r
+              end
+            else js_rune_piece_soy s ++ js_escape_soy_aux (pred (rune_width s)) r
+        end
+    end.
+  Definition js_escape_soy (s : bstr) : bstr := js_escape_soy_aux 0 s.
+End JsEscapeSoy.
